@@ -229,3 +229,48 @@ func c09ReasonOK(v ssa.Value, site ssa.Instruction, all bool, set map[string]boo
 	}
 	return false, "reason not resolved"
 }
+
+// c09CloseHandlerUnconditional (R3): every close event of a pooled connection retires its client.
+// The pool's books (idle list, closed flag, client count) are corrected in the connection-event handler. A handler that
+// declines for some close events - because of the client's own state, a counter, a flag - leaves a dead connection that
+// still looks alive: OnDestroyStream re-pools it (closed is false), the next request leases it, and the count stays one too
+// high for good. Clause: for every closing event, no path through the handler avoids the instruction that marks the client
+// closed (directly, or through a helper of the package that does so unconditionally).
+func c09CloseHandlerUnconditional(c *Ctx) {
+	for _, p := range c09ResetPools {
+		n := 0
+		ord := ordCounter{}
+		for _, fn := range c.PkgFuncs(p.pkg) {
+			for _, st := range storesToField(fn, "."+p.client, "closed", false) {
+				if b, ok := constBool(st.Val); !ok || !b {
+					continue
+				}
+				if ev, _ := eventParamOf(fn); ev != nil {
+					n++
+					ok, why := mustRunOnCloseEvents(st)
+					c.Check("C09.R3", ord.next(fn, "close-handler-unconditional"), st.Pos(), ok, "the client is marked closed for every closing event", "the connection-event handler of "+p.client+" "+why+" without retiring the client: a closed connection stays in the books, is re-pooled by OnDestroyStream and leased to the next request, and the client count never comes down")
+					continue
+				}
+				// a helper: unconditional inside, and every event handler calling it cannot skip it
+				if !unconditionalIn(st) {
+					n++
+					c.Fail("C09.R3", ord.next(fn, "close-handler-unconditional"), st.Pos(), fn.Name()+" marks the client closed only on some of its paths")
+					continue
+				}
+				for _, g := range c.PkgFuncs(p.pkg) {
+					if ev, _ := eventParamOf(g); ev == nil {
+						continue
+					}
+					for _, cs := range callsIn(g, false, func(cc *ssa.CallCommon) bool { return cc.StaticCallee() == fn }) {
+						n++
+						ok, why := mustRunOnCloseEvents(cs.Instr)
+						c.Check("C09.R3", ord.next(g, "close-handler-unconditional"), cs.Instr.Pos(), ok, "the client is retired ("+fn.Name()+") for every closing event", "the connection-event handler of "+p.client+" "+why+" without retiring the client ("+fn.Name()+"): a closed connection stays in the books, is re-pooled by OnDestroyStream and leased to the next request, and the client count never comes down")
+					}
+				}
+			}
+		}
+		if n < 1 {
+			c.Unresolved("C09.R3", "the place where "+p.client+" is marked closed on a connection event")
+		}
+	}
+}
